@@ -128,6 +128,7 @@ def make_excx(ei):
 
 N_EXCX = 6
 _rot = [0]
+_rotkw = [0]
 
 
 # ---- child side ---------------------------------------------------------------------------------------------------------
@@ -350,8 +351,16 @@ def run_case(item, bound):
             pr, cw = multiprocessing.get_context('spawn').Pipe(duplex=False)
             spec = {'kind': sc['kind'], 'vi': sc.get('vi', 0), 'ei': sc.get('ei', 0),
                     'park': sc['phase'] if sc['phase'] != 'none' else None}
-            w = Process(target=child_target, args=(BootGate(cw, sc['phase'] == 'boot'), spec),
-                        name=f'verif-case-{item["id"]}')
+            if not sc.get('viakw'):
+                w = Process(target=child_target, args=(BootGate(cw, sc['phase'] == 'boot'), spec),
+                            name=f'verif-case-{item["id"]}')
+            else:
+                # the arguments travel in a kwargs dict that the CALLER keeps alive (as a caller re-using one dict for several
+                # processes does)
+                kw = {'spec': spec}
+                _KEEP.append(kw)
+                w = Process(target=child_target, args=(BootGate(cw, sc['phase'] == 'boot'),), kwargs=kw,
+                            name=f'verif-case-{item["id"]}')
             _KEEP.append(w)
             w.start()
             cw.close()
@@ -470,7 +479,9 @@ def scenario(rnd, flavour, kind, phase, sig, first):
     order = [first] + rest
     # the probes once more at the end: after a blocking accessor has returned they must say "ended"
     order += ['done', 'exitcode'] if flavour == 'proc' else ['done']
-    sc = {'flavour': flavour, 'kind': kind, 'phase': phase, 'sig': sig, 'accs': order, 'vi': 0, 'ei': 0}
+    _rotkw[0] += 1
+    sc = {'flavour': flavour, 'kind': kind, 'phase': phase, 'sig': sig, 'accs': order, 'vi': 0, 'ei': 0,
+          'viakw': _rotkw[0] % 2 == 0}     # arguments passed in a kwargs dict that the caller keeps alive
     if kind == 'ret':
         sc['vi'] = rnd.randrange(-1, N_VALUES)
     elif kind == 'raise':
